@@ -275,6 +275,7 @@ def shl(a, b):
 def shr(a, b):
     if a[0] == 'c' and b[0] == 'c': return C(a[1] >> b[1])
     if b == ZERO: return a
+    if a[0] == 'shr' and a[2][0] == 'c' and b[0] == 'c': return shr(a[1], C(a[2][1] + b[1]))
     return ('shr', a, b)
 
 def div(a, b):
@@ -304,6 +305,7 @@ def rem(a, b):
     return ('rem', a, b)
 
 def trunc(a, bits):
+    if a[0] == 'trunc' and a[2] >= bits: return trunc(a[1], bits)
     lo, hi = rng(a)
     if lo >= 0 and hi < (1 << bits): return a
     if a[0] == 'c': return C(a[1] & ((1 << bits) - 1))
